@@ -88,8 +88,8 @@ strings as `str`, anything ignored. -/
 def c10ok (core : Ty) (l : BLeaf) : Bool :=
   match core, l with
   | .ign, _ => true
-  | .i64, .i64 n => decide (n.natAbs ≤ Scalar.I64_MAX)
-  | .i64, .i32 n => decide (n.natAbs ≤ Scalar.I64_MAX)
+  | .i64, .i64 n => inI64 n
+  | .i64, .i32 n => inI64 n
   | .u64, .u64 n => decide (n ≤ Scalar.U64_MAX)
   | .u64, .u32 n => decide (n ≤ Scalar.U64_MAX)
   | .bool, .bool _ => true
@@ -103,7 +103,7 @@ theorem c10ok_agree (c : Cfg) (core : Ty) (l : BLeaf) (h : c10ok core l = true) 
     first
     | (simp [valCoreG, textSem, binSem]; done)
     | (simp [valCoreG, textSem, binSem, textLeaf, leafText, textScalarVal, valLeaf, u16Leaf, leafPrim, visitPrim, Prim.asInt,
-        toI64_fmtInt _ h]; done)
+        toI64_fmtInt' _ h]; done)
     | (simp [valCoreG, textSem, binSem, textLeaf, leafText, textScalarVal, valLeaf, u16Leaf, leafPrim, visitPrim, Prim.asInt,
         toU64_fmtNat _ h]; done)
     | (simp [valCoreG, textSem, binSem, textLeaf, leafText, textScalarVal, valLeaf, u16Leaf, leafPrim, visitPrim]; done)
